@@ -161,8 +161,15 @@ struct SrvScript {
                 return true;
             }
             peer.write("<failed xmlns='urn:xmpp:sm:3'><item-not-found xmlns='urn:ietf:params:xml:ns:xmpp-stanzas'/></failed>");
-            if (!waitFor("<bind")) {
+            // a diverging client may declare the session open without binding: that is an observation, not a hang
+            if (!qxvSpin([&] { return peer.received.contains("<bind") || connectedSignals > sig0; }, timeoutMs)) {
                 return fail("no bind after <failed/>");
+            }
+            if (!peer.received.contains("<bind")) {
+                qxvDrain(2);
+                flushClient(sent0, recv0);
+                absorb();
+                return true;
             }
         } else if (k == Resumed) {
             return fail("client did not ask for resumption");
